@@ -18,10 +18,54 @@ from .core import AnalysisError, norm
 
 
 class Outcome:
-    def __init__(self, end, events, path):
+    def __init__(self, end, events, path, env=()):
         self.end = end  # Node where the walk stopped
         self.events = events  # tuple of event strings
         self.path = path
+        self.env = dict(env)  # verdict variables: name -> 'empty' | 'nonempty' (string results carried in locals)
+
+
+# Verdict variables: a decision procedure split into helpers (or inlined back from them) carries its
+# result in a local -- `check = ""` / `check = f"..."` ... `if check != "": return check`.  The walk
+# tracks which locals hold the empty / a non-empty string constant and decides tests of them.
+_ENV: dict = {}
+
+
+def _absval(v, env):
+    if isinstance(v, ast.Constant) and isinstance(v.value, str):
+        return "empty" if v.value == "" else "nonempty"
+    if isinstance(v, ast.JoinedStr):
+        return "nonempty" if any(isinstance(x, ast.Constant) and x.value for x in v.values) else None
+    if isinstance(v, ast.Name):
+        return env.get(v.id)
+    if isinstance(v, ast.Constant) and isinstance(v.value, bool):
+        return "true" if v.value else "false"
+    return None
+
+
+def env_truth(e):
+    """Truth of a test of a verdict variable under the current walk, else None."""
+    env = _ENV
+    if isinstance(e, ast.Name) and e.id in env:
+        return env[e.id] in ("nonempty", "true")
+    if isinstance(e, ast.Compare) and len(e.ops) == 1 and isinstance(e.left, ast.Name) and e.left.id in env:
+        c, op = e.comparators[0], e.ops[0]
+        if isinstance(c, ast.Constant) and c.value == "" and isinstance(op, (ast.Eq, ast.NotEq)) and env[e.left.id] in ("empty", "nonempty"):
+            v = env[e.left.id] == "empty"
+            return v if isinstance(op, ast.Eq) else not v
+        if isinstance(c, ast.Constant) and c.value in (True, False) and isinstance(op, (ast.Is, ast.IsNot, ast.Eq, ast.NotEq)) and env[e.left.id] in ("true", "false"):
+            v = (env[e.left.id] == "true") == bool(c.value)
+            return v if isinstance(op, (ast.Is, ast.Eq)) else not v
+    if isinstance(e, ast.Compare) and len(e.ops) == 1 and isinstance(e.left, ast.Call) and isinstance(e.left.func, ast.Name) and e.left.func.id == "len" \
+            and e.left.args and isinstance(e.left.args[0], ast.Name) and e.left.args[0].id in env and isinstance(e.comparators[0], ast.Constant) and e.comparators[0].value == 0 \
+            and env[e.left.args[0].id] in ("empty", "nonempty"):
+        empty = env[e.left.args[0].id] == "empty"
+        op = e.ops[0]
+        if isinstance(op, ast.Eq):
+            return empty
+        if isinstance(op, (ast.NotEq, ast.Gt)):
+            return not empty
+    return None
 
     def __repr__(self):
         return f"<Outcome end={self.end!r} events={self.events}>"
@@ -43,6 +87,9 @@ def eval_bool(e, atom: Callable):
         return None if v is None else (not v)
     if isinstance(e, ast.Constant):
         return bool(e.value)
+    v = env_truth(e)
+    if v is not None:
+        return v
     return atom(e)
 
 
@@ -53,22 +100,38 @@ def simulate(cfg, start, stop: Callable, test_oracle: Callable, raise_oracle: Op
     (the node's edge labelled with that kind, or 'e').  event_of(node) -> str|None records events.
     Unknown conditions explore both branches; un-modelled exceptional edges are not followed."""
     outs = []
-    stack = [(start, (), ())]
+    stack = [(start, (), (), ())]
     seen = set()
     steps = 0
     while stack:
-        node, events, path = stack.pop()
+        node, events, path, env = stack.pop()
         steps += 1
         if steps > limit:
             raise AnalysisError("abstract simulation exceeded its step limit (loop without progress?)")
-        key = (node.id, events)
+        key = (node.id, events, env)
         if key in seen:
             continue
         seen.add(key)
         path = path + (node,)
+        _ENV.clear()
+        _ENV.update(env)
         if stop(node):
-            outs.append(Outcome(node, events, path))
+            outs.append(Outcome(node, events, path, env))
             continue
+        # verdict variables (on the normal continuation of an assignment)
+        env_after = env
+        if node.kind == "stmt" and isinstance(node.ast, (ast.Assign, ast.AnnAssign)):
+            tgts = node.ast.targets if isinstance(node.ast, ast.Assign) else [node.ast.target]
+            d = dict(env)
+            for t in tgts:
+                for x in ast.walk(t):
+                    if isinstance(x, ast.Name):
+                        d.pop(x.id, None)
+            if len(tgts) == 1 and isinstance(tgts[0], ast.Name) and getattr(node.ast, "value", None) is not None:
+                av = _absval(node.ast.value, dict(env))
+                if av is not None:
+                    d[tgts[0].id] = av
+            env_after = tuple(sorted(d.items()))
         if event_of is not None:
             ev = event_of(node)
             if ev:
@@ -79,21 +142,22 @@ def simulate(cfg, start, stop: Callable, test_oracle: Callable, raise_oracle: Op
             if not tgt:
                 raise AnalysisError(f"abstract simulation: node `{node.text()}` has no exceptional edge for {rk}")
             # follow through dispatch nodes to the matching handler
-            stack.append((_through_dispatch(tgt[0], rk), events, path))
+            stack.append((_through_dispatch(tgt[0], rk), events, path, env))
             continue
         if node.kind in ("test", "while"):
             v = test_oracle(node)
             for k, s in node.succ:
                 if k == "t" and v is not False:
-                    stack.append((s, events, path))
+                    stack.append((s, events, path, env))
                 if k == "f" and v is not True:
-                    stack.append((s, events, path))
+                    stack.append((s, events, path, env))
             continue
         for k, s in node.succ:
             if k in ("n", "ret", "brk", "cont", "loop", "done", "fall", "caught"):
                 if node.kind == "for" and k == "done":
                     continue  # one iteration at a time: the caller decides what the header means
-                stack.append((s, events, path))
+                stack.append((s, events, path, env_after))
+    _ENV.clear()
     return outs
 
 
